@@ -33,7 +33,7 @@ ByteCombos == IF ByteAll THEN Combos ELSE {<<"gm", "ecc", "CBC">>, <<"gm", "ecc"
 Base(c) == [proto |-> c[1], kx |-> c[2], suite |-> c[3],
             verify |-> TRUE, signCert |-> "good", encCert |-> "good", signKey |-> "right", encKey |-> "right",
             ske |-> "honest", policy |-> "none", cliCert |-> "good", cliKey |-> "right", cv |-> "honest", mitm |-> "none",
-            msg |-> "", frac |-> 0]
+            msg |-> "", frac |-> 0, clock |-> "now", veto |-> "none"]
 Dual(h) == h.proto = "gm"                  \* signing + encryption certificate
 HasSKE(h) == h.kx \in {"ecc", "ecdhe"}
 \* certificates that must not be accepted.  GMSSL: also a non-SM2 certificate and swapped key usages (both refused even
@@ -42,6 +42,27 @@ HasSKE(h) == h.kx \in {"ecc", "ecdhe"}
 \* "noipsan": the client addresses the server by an IP literal and the (otherwise good) certificate names no IP address
 CertKinds(h) == {"good", "untrusted", "expired", "notyet", "wrongname", "lookalike_root", "noipsan"} \cup (IF Dual(h) THEN {"rsa", "wrongusage"} ELSE {"wrongeku"})
 HonestOf(h) == {h, [h EXCEPT !.verify = FALSE]} \cup {[h EXCEPT !.policy = p] : p \in Policies}
+\* "valid at the configured time": both endpoints may run on a configured clock (Config.Time) instead of the wall clock.
+\* clock = "ahead": the configured time lies ten days after the wall clock.  Certificate kinds by validity period:
+\* "good" is valid now and over by then, "long" is valid at both moments, "future" only at the later one.
+Trustworthy == {"good", "long", "future", "good_then_other"}
+ValidAt(k, clock) == k = "long" \/ (k \in {"good", "good_then_other"} /\ clock = "now") \/ (k = "future" /\ clock = "ahead")
+Acceptable(k, clock) == k \in Trustworthy /\ ValidAt(k, clock)
+ClockScenarios(h) ==
+  LET L == [h EXCEPT !.signCert = "long", !.encCert = "long"] IN
+  UNION {
+    {[L EXCEPT !.clock = c, !.signCert = a] : a \in {"good", "long", "future"}} \cup
+    (IF Dual(h) THEN {[L EXCEPT !.clock = c, !.encCert = b] : b \in {"good", "long", "future"}} ELSE {}) \cup
+    {[h EXCEPT !.clock = c, !.signCert = "future", !.encCert = "future", !.verify = FALSE]} \cup
+    {[L EXCEPT !.clock = c, !.policy = p, !.cliCert = k] : k \in {"good", "long", "future"}, p \in {"requireany", "verifyifgiven", "require"}}
+    : c \in {"now", "ahead"}}
+\* an application callback (Config.VerifyPeerCertificate) that refuses the certificates it is shown: the side that runs
+\* it aborts - under every client-certificate policy that makes the client present one, also the non-verifying ones
+\* the callback exists for, and also with verification switched off
+VetoScenarios(h) ==
+  {[h EXCEPT !.veto = "client"], [h EXCEPT !.veto = "client", !.verify = FALSE]} \cup
+  {[h EXCEPT !.policy = p, !.veto = "server"] : p \in Policies \ {"none"}} \cup
+  {[h EXCEPT !.policy = p, !.veto = "server", !.cliCert = "untrusted"] : p \in {"request", "requireany"}}
 
 ScenariosOf(h) ==
   LET W(f, v) == [h EXCEPT ![f] = v]
@@ -89,7 +110,7 @@ ByteScenarios(h) ==
   {[h EXCEPT !.policy = "require", !.mitm = "byte", !.msg = k, !.frac = f] :
       k \in (IF HasSKE(h) THEN MsgKinds ELSE MsgKinds \ {"SKE"}), f \in 0..(Fracs - 1)}
 
-Scenarios == UNION {ScenariosOf(Base(c)) : c \in Combos} \cup UNION {ByteScenarios(Base(c)) : c \in ByteCombos}
+Scenarios == UNION {ScenariosOf(Base(c)) \cup ClockScenarios(Base(c)) \cup VetoScenarios(Base(c)) : c \in Combos} \cup UNION {ByteScenarios(Base(c)) : c \in ByteCombos}
 Honest == UNION {HonestOf(Base(c)) : c \in Combos}
 
 Init == s \in Scenarios /\ pcC = "run" /\ pcS = "run" /\ step = 1
@@ -109,8 +130,9 @@ Views == LET base == <<"ch", "sh", "cert", "ske", "creq", "ccert", "cke", "cv">>
 CertStructOK(k) == k \notin {"rsa", "wrongusage"}
 ClientAcceptsCerts == /\ CertStructOK(s.signCert) /\ CertStructOK(s.encCert)
                       /\ s.mitm # "cert_swap"                                  \* swapped order: usages do not fit
-                      /\ (s.verify => s.signCert = "good" /\ s.encCert = "good")
-                      /\ (s.verify => s.mitm # "cert_bit")                     \* a changed certificate does not verify
+                      /\ (s.verify => Acceptable(s.signCert, s.clock) /\ (Dual(s) => Acceptable(s.encCert, s.clock)))
+                      /\ (s.verify => s.mitm # "cert_bit")
+                      /\ s.veto # "client"                     \* a changed certificate does not verify
 \* 2. client: ServerKeyExchange present, signed by the (signing) certificate's key over this session's randoms and
 \*    (GMSSL) the encryption certificate it received / (ECDHE) the ephemeral parameters; RSA key transport has none
 SkeOK == ~HasSKE(s) \/ (/\ s.ske = "honest" /\ s.signKey = "right"
@@ -124,7 +146,8 @@ PmsOK == /\ s.mitm # "cke_bit"
 \*    CertificateVerify over this transcript whenever a certificate is presented
 ClientSends == s.policy # "none" /\ s.cliCert # "none"
 ClientAuthOK == /\ (s.policy \in NeedCert => s.cliCert # "none")
-                /\ (ClientSends => /\ (s.policy \in Verifying => s.cliCert \in {"good", "good_then_other"})
+                /\ (ClientSends => /\ (s.policy \in Verifying => Acceptable(s.cliCert, s.clock))
+                                   /\ s.veto # "server"
                                    /\ s.cliKey = "right" /\ s.cv = "honest"
                                    /\ s.mitm \notin {"ccert_bit", "cv_bit"}
                                    /\ Views[1] = Views[2])        \* the signature covers the transcript as the client saw it
@@ -146,12 +169,14 @@ Done == step = 6
 \* this session; with verification on, only under acceptable certificates
 AuthServer == (Done /\ pcC = "complete") => /\ s.signKey = "right" /\ (Dual(s) => s.encKey = "right")
                                             /\ (HasSKE(s) => s.ske = "honest")
-                                            /\ (s.verify => s.signCert = "good" /\ s.encCert = "good")
+                                            /\ (s.verify => Acceptable(s.signCert, s.clock) /\ (Dual(s) => Acceptable(s.encCert, s.clock)))
+                                            /\ s.veto # "client"
 \* the server completes with a client that presents a certificate only if the client proved possession of its key over
 \* this transcript; under a verifying policy only if the certificate chains and is valid; under a requiring policy only
 \* with a certificate
 AuthClient == (Done /\ pcS = "complete") => /\ (ClientSends => s.cliKey = "right" /\ s.cv = "honest")
-                                            /\ (ClientSends /\ s.policy \in Verifying => s.cliCert \in {"good", "good_then_other"})
+                                            /\ (ClientSends /\ s.policy \in Verifying => Acceptable(s.cliCert, s.clock))
+                                            /\ (ClientSends => s.veto # "server")
                                             /\ (s.policy \in NeedCert => s.cliCert # "none")
 \* Agreement: never both complete with different views
 Agreement == (Done /\ pcC = "complete" /\ pcS = "complete") => Views[1] = Views[2]
@@ -159,5 +184,11 @@ HonestCompletes == (Done /\ s \in Honest) => pcC = "complete" /\ pcS = "complete
 \* the policies that do not verify accept any certificate whose key the client proves
 LaxPoliciesAccept == (Done /\ s.policy \in {"request", "requireany"} /\ s.cliCert \in {"untrusted", "expired", "notyet"}
                       /\ [s EXCEPT !.policy = "none", !.cliCert = "good"] \in Honest) => pcS = "complete"
+\* a certificate is judged at the configured time, not at the wall clock: whatever is trusted and valid then is accepted
+ClockHonoured == (Done /\ s.mitm = "none" /\ s.veto = "none" /\ s.signKey = "right" /\ s.encKey = "right" /\ s.ske = "honest" /\ s.cliKey = "right" /\ s.cv = "honest"
+                  /\ s.signCert \in Trustworthy /\ s.encCert \in Trustworthy /\ s.cliCert \in Trustworthy \cup {"none"}
+                  /\ ValidAt(s.signCert, s.clock) /\ (Dual(s) => ValidAt(s.encCert, s.clock))
+                  /\ (ClientSends => ValidAt(s.cliCert, s.clock)) /\ (s.policy \in NeedCert => s.cliCert # "none"))
+                 => pcC = "complete" /\ pcS = "complete"
 Emit == Done => PrintT(<<"CASE", ToJson([case |-> s, expect |-> [client |-> pcC, server |-> pcS]])>>)
 =============================================================================
